@@ -161,6 +161,10 @@ func (b *bitstream) Next() error {
 	if !b.stack.empty() {
 		cur := b.stack.peek()
 		if b.pos == cur.end {
+			if cur.code == bitcodeStruct && b.state == bssBeforeValue {
+				// A field id must be followed by a value.
+				return &SyntaxError{"struct ends after a field name", b.pos}
+			}
 			b.code = bitcodeEOF
 			return nil
 		}
@@ -181,6 +185,10 @@ func (b *bitstream) Next() error {
 
 	// Found the end of the file.
 	if c == -1 {
+		if !b.stack.empty() {
+			// The input stops inside a container.
+			return &UnexpectedEOFError{b.pos - 1}
+		}
 		b.code = bitcodeEOF
 		return nil
 	}
@@ -1079,7 +1087,8 @@ func (b *bitstream) skip(n uint64) error {
 	b.pos += uint64(actual)
 
 	if err == io.EOF {
-		return nil
+		// The value or container being skipped is longer than the input.
+		return &UnexpectedEOFError{b.pos}
 	}
 	if err != nil {
 		return &IOError{err}
